@@ -49,7 +49,11 @@ class ValuesOfCorrectTypeChecker(ValidationVisitor):
             return
 
         named_type = unwrap_type(input_type)
-        if not isinstance(named_type, ScalarType):
+        if not isinstance(named_type, ScalarType) or isinstance(
+            node, (_ast.ObjectValue, _ast.ListValue)
+        ):
+            # Object and list literals are never valid scalar literals (see
+            # value_from_ast), custom scalars included.
             self._report_bad_value(input_type, node)
         else:
             try:
